@@ -86,3 +86,32 @@ def quiet():
         os.close(saved[0])
         os.close(saved[1])
         os.close(devnull)
+
+
+def build_with_refusals(sp, refusals, res):
+    """The reaction list is built call by call, and some calls in between are refused (they name a species that does not
+    exist): a refused reaction is not part of the model, the accepted ones are - in their order.  refusals: [(position,
+    kind)].  Returns the uninitialised model, or None (res.skip set) if an invalid reaction was not refused."""
+    M = to_model(dict(sp, reactions=[]), initialize=False)
+    some = sp["species"][0]
+    for j in range(len(sp["reactions"]) + 1):
+        for kind in [k for pos, k in refusals if pos == j]:
+            bad = {"hill_unknown_species": ([some], [some, some], "hillpositive",
+                                            {"k": 1.0, "K": 5.0, "n": 2.0, "s1": "X_undeclared"}),
+                   "massaction_unknown_species": ([some], [], "massaction", {"k": 1.0, "species": some + "*Y_undeclared"}),
+                   "delayed_hill_unknown_species": ([], [some], "hillnegative",
+                                                    {"k": 1.0, "K": 2.0, "n": 1.0, "s1": "X_undeclared"}, "fixed",
+                                                    [some], [some, some], {"delay": 1.0})}[kind]
+            try:
+                M.create_reaction(*bad)
+            except (KeyError, ValueError):
+                res.label("refused_call_between_reactions:" + kind)
+            else:
+                res.skip = "the invalid reaction was not refused"
+                return None
+        if j < len(sp["reactions"]):
+            M.create_reaction(*reaction_tuple(sp["reactions"][j]))
+    return M
+
+
+REFUSAL_KINDS = ["hill_unknown_species", "massaction_unknown_species", "delayed_hill_unknown_species"]
